@@ -680,7 +680,7 @@ class BufferByteArray(XBuffer):
 
     def update_from_buffer(self, offset, source):
         """Copy data from python buffer such as bytearray, bytes, memoryview, numpy array.data"""
-        nbytes = len(source)
+        nbytes = memoryview(source).nbytes  # len() counts items, not bytes
         self.buffer[offset : offset + nbytes] = source
 
     def to_nplike(self, offset, dtype, shape):
@@ -732,7 +732,7 @@ class BufferNumpy(XBuffer):
 
     def update_from_buffer(self, offset, source):
         """Copy data from python buffer such as bytearray, bytes, memoryview, numpy array.data"""
-        nbytes = len(source)
+        nbytes = memoryview(source).nbytes  # len() counts items, not bytes
         self.buffer[offset : offset + nbytes] = bytearray(source)
 
     def to_nplike(self, offset, dtype, shape):
